@@ -201,7 +201,16 @@ func (f *Frame) callInner(in ssa.CallInstruction, res *ssa.Call) {
 	// unknown call
 	name := shortCallee(c)
 	vc.unknownCalls[name] = true
+	dynBefore := ""
+	if !c.IsInvoke() && c.StaticCallee() == nil {
+		if _, isMC := c.Value.(*ssa.MakeClosure); !isMC {
+			dynBefore = f.get(f.cur, vc.dynKey()) // a call through a function value
+		}
+	}
 	f.havocAll(f.cur, name)
+	if dynBefore != "" {
+		vc.assume(Imp(f.curReach, S("<", dynBefore, f.get(f.cur, vc.dynKey()))))
+	}
 	if res != nil {
 		if tt, ok := res.Type().(*types.Tuple); ok {
 			var ts []string
@@ -489,6 +498,33 @@ func (f *Frame) callBySig(cs calleeSig, spec *FuncSpec, args []string, res *ssa.
 		}
 		vc.assume(Imp(f.curReach, tv.T))
 	}
+	// 5. conditional frame: unless the condition holds, every state key is the
+	// very one it was before the call (not merely equal cell by cell, so that
+	// recursive specification functions see the same heap)
+	if spec.UnchangedUnless != nil {
+		tv, err := env.tr(spec.UnchangedUnless.Expr)
+		if err != nil {
+			vc.errorf("%s:%d: %v", spec.UnchangedUnless.File, spec.UnchangedUnless.Line, err)
+		} else {
+			c := vc.define(f.id+"changed", "Bool", tv.T)
+			var ks []string
+			for k := range post.m {
+				ks = append(ks, k)
+			}
+			sort.Strings(ks)
+			for _, k := range ks {
+				srt, known := vc.eng.keySort[k]
+				if !known || !condFrameKey(k) {
+					continue
+				}
+				pv, nv := f.get(pre, k), f.get(post, k)
+				if pv == nv {
+					continue
+				}
+				f.set(post, k, vc.define(k+"@iffchanged", srt, Ite(c, nv, pv)))
+			}
+		}
+	}
 	setResult(terms)
 }
 
@@ -547,6 +583,11 @@ func (f *Frame) applyModifies(spec *FuncSpec, env *TEnv, pre, post *State) {
 	na := vc.fresh("alloc@call", "Int")
 	vc.assume(S("<=", allocPre, na))
 	f.set(post, "alloc", na)
+	if _, ok := vc.eng.keySort["ghost:dyncalls"]; ok && !spec.Pure {
+		dn := vc.fresh("dyncalls@call", "Int")
+		vc.assume(S("<=", f.get(pre, "ghost:dyncalls"), dn))
+		f.set(post, "ghost:dyncalls", dn)
+	}
 	for _, k := range keys {
 		old := f.get(pre, k)
 		nv := vc.fresh(k+"@call", vc.eng.keySort[k])
